@@ -18,7 +18,9 @@ RULE = ('histories as in C01, each executed on the real eos with the EOS_VERIF h
         'calculator / simulator / statistics / restriction classes for short programs} x item-hash salts x '
         'PYTHONHASHSEED; every schedule is compared line by line (values, running effects, containers, exceptions; '
         'not the cached-key sets, which legitimately depend on who read first) with the first schedule and with '
-        'the model (which has one fixed order); non-trivial = at least one AttrsValueChanged or EffectApplied delivered')
+        'the model (which has one fixed order); plus generated resource-user scenarios (cpu / powergrid users whose '
+        'resource attribute exists only as a cached default and is modified by an effect starting in the same '
+        'publication as the resource use; with controls) under the same schedules; non-trivial = at least one AttrsValueChanged or EffectApplied delivered')
 
 CLASSES = ['Calculation', 'ReactiveArmor', 'Stat', 'Restriction']
 
@@ -56,6 +58,53 @@ def oracle(ulines, lines, meta):
     return None
 
 
+def resource_scenario(rng):
+    """a resource user whose resource attribute exists only as the attribute's default value, is read while
+    the user is offline (so the value is cached) and is modified by an effect that starts in the same
+    publication as the resource use itself: the statistics / restriction registers and the calculator then
+    handle one EffectsStarted message, in whatever order the broker delivers it"""
+    from eos.const.eve import AttrId, EffectId, EffectCategoryId as EC
+    from eos.const.eos import ModAffecteeFilter as F, ModDomain as D, ModOperator as OP, ModAggregateMode as AG
+    from eosenv import bits
+    res_attr, out_attr = rng.choice([(int(AttrId.cpu), int(AttrId.cpu_output)),
+                                     (int(AttrId.power), int(AttrId.power_output))])
+    own_effect = rng.random() < 0.5          # the modifier sits on 'online' itself or on a second online effect
+    eff = int(EffectId.online) if own_effect else 2050
+    val = rng.choice([8, 25, 40])
+    default = rng.choice([0, 0, 5])
+    on_type = rng.random() < 0.25            # control: the type does define the resource attribute
+    ul = ['u_attr 1 1000 - 1 1 -', 'u_attr 1 %d %s/1 0 1 -' % (res_attr, bits(default)),
+          'u_attr 1 %d - 1 1 -' % out_attr,
+          'u_effect 1 %d %d - - 0 -' % (int(EffectId.online), int(EC.online))]
+    if not own_effect:
+        ul.append('u_effect 1 %d %d - - 0 -' % (eff, int(EC.online)))
+    ul.append('u_mod 1 %d %d - %d %d %d %d - 1000' % (eff, int(F.item), int(D.self), res_attr,
+                                                        int(rng.choice([OP.mod_add, OP.mod_add, OP.pre_assign])),
+                                                        int(AG.stack)))
+    ul += ['u_type 1 1381 - - -', 'u_type 1 3100 50 6 -', 'u_tattr 1 3100 %d %s/1' % (out_attr, bits(100)),
+           'u_type 1 3200 51 7 -', 'u_tattr 1 3200 1000 %s/1' % bits(val), 'u_teffect 1 3200 %d' % int(EffectId.online)]
+    if not own_effect:
+        ul.append('u_teffect 1 3200 %d' % eff)
+    if on_type:
+        ul.append('u_tattr 1 3200 %d %s/1' % (res_attr, bits(3)))
+    ul.append('commit 1')
+    rack = rng.choice(['high', 'mid', 'low'])
+    ops = ['solsys 1', 'fit 1 1', 'new 10 ship 3100 1 0', 'new 12 mod%s 3200 1 0' % rack,
+           'new 13 mod%s 3200 %d 0' % (rack, rng.choice([1, 2, 3])), 'source 1 1', 'ssadd 1 1', 'slot 1 ship 10',
+           'rappend 1 %s 12' % rack, 'rappend 1 %s 13' % rack]
+    tail = ['get 12 %d' % res_attr, 'get 13 %d' % res_attr, 'state 12 %d' % rng.choice([2, 3]),
+            'get 12 %d' % res_attr, 'state 13 %d' % rng.choice([1, 2, 3]), 'state 12 1', 'get 12 %d' % res_attr,
+            'state 12 2', 'rremove 1 %s item 13' % rack, 'state 12 1']
+    if rng.random() < 0.5:
+        tail.pop(0)                          # control: no read before the state change
+    script = ul + ops
+    for l in tail:
+        script.append(l)
+        if not l.startswith('get'):
+            script += ['stats 1', 'validate 1']
+    return script
+
+
 def run(rep):
     res, hists = engcheck.run(rep, 'C08', PROP_FILE, eng_gen.gen_history, 50, 3000, ['all', 'some'],
                               oracle, RULE, real_penalty_share=0.0)
@@ -77,6 +126,9 @@ def run(rep):
                     out.append('validate %d' % f)
         return out
     scripts = [with_services(h) for h in sample]
+    nres = 12 if rep.tier == 'quick' else 300
+    scripts += [resource_scenario(rng) for _ in range(nres)]
+    sample = sample + [('resource', [], None, None, [None] * 20)] * nres
     cfgs = [dict(order_seed=0, salt=0, mode='sorted'), dict(order_seed=1, salt=0, mode='reverse'),
             dict(order_seed=2, salt=11, mode='shuffle'), dict(order_seed=3, salt=23, mode='shuffle')]
     short = [k for k, s in enumerate(scripts) if len(sample[k][4]) <= (60 if rep.tier == 'quick' else 80)]
